@@ -427,3 +427,157 @@ Proof.
                                           f (pi id) v Hin) as E.
   rewrite firstn_skipn in E. symmetry. exact E.
 Qed.
+
+(** ** every outcome of a run on a closed prefix is the outcome on the whole registry
+    (all outcomes except fuel exhaustion survive more fuel; on a closed prefix no lookup differs) *)
+Definition le_nf {A} (x1 x2 : M A) : Prop := forall s, x1 s <> XErr XOutOfFuel -> x2 s = x1 s.
+
+Lemma le_nf_refl {A} (x : M A) : le_nf x x.
+Proof. intros s _. reflexivity. Qed.
+
+Lemma le_nf_bind {A B} (x1 x2 : M A) (f1 f2 : A -> M B) :
+  le_nf x1 x2 -> (forall a, le_nf (f1 a) (f2 a)) -> le_nf (mbind x1 f1) (mbind x2 f2).
+Proof.
+  intros Hx Hf s H. unfold mbind in *.
+  assert (Hx1 : x1 s <> XErr XOutOfFuel).
+  { intros E. rewrite E in H. apply H. reflexivity. }
+  rewrite (Hx s Hx1). destruct (x1 s) as [[a s1]|e|m]; [|reflexivity|reflexivity].
+  apply Hf. exact H.
+Qed.
+
+Lemma le_nf_mmapM {X B} (f1 f2 : X -> M B) l :
+  (forall x, In x l -> le_nf (f1 x) (f2 x)) -> le_nf (mmapM f1 l) (mmapM f2 l).
+Proof.
+  induction l as [|x l IH]; intros H; cbn [mmapM]; [apply le_nf_refl|].
+  apply le_nf_bind; [apply H; left; reflexivity|]. intros y.
+  apply le_nf_bind; [apply IH; intros x' Hx'; apply H; right; exact Hx'|]. intros ys. apply le_nf_refl.
+Qed.
+
+Lemma le_nf_mrepeatN {A} len (f1 f2 : M A) : le_nf f1 f2 -> le_nf (mrepeatN len f1) (mrepeatN len f2).
+Proof.
+  intros Hf s. unfold mrepeatN. rewrite !N2Nat.inj_iter.
+  assert (E : forall n, Nat.iter n (mrepeat_step f1) (XOk ([], s)) <> XErr XOutOfFuel ->
+                        Nat.iter n (mrepeat_step f2) (XOk ([], s)) = Nat.iter n (mrepeat_step f1) (XOk ([], s))).
+  { induction n as [|n IH]; intros H; [reflexivity|]. rewrite !nat_iter_S in *.
+    assert (H1 : Nat.iter n (mrepeat_step f1) (XOk ([], s)) <> XErr XOutOfFuel).
+    { intros E. rewrite E in H. apply H. reflexivity. }
+    rewrite (IH H1).
+    destruct (Nat.iter n (mrepeat_step f1) (XOk ([], s))) as [[xs s0]|e|m]; [|reflexivity|reflexivity].
+    cbn [mrepeat_step] in *.
+    assert (H2 : f1 s0 <> XErr XOutOfFuel).
+    { intros E. rewrite E in H. apply H. reflexivity. }
+    rewrite (Hf s0 H2). reflexivity. }
+  intros H.
+  assert (H1 : Nat.iter (N.to_nat len) (mrepeat_step f1) (XOk ([], s)) <> XErr XOutOfFuel).
+  { intros E1. rewrite E1 in H. apply H. reflexivity. }
+  rewrite (E _ H1). reflexivity.
+Qed.
+
+Lemma le_nf_fields rec1 rec2 fs :
+  (forall f, In f fs -> le_nf (rec1 (snd f)) (rec2 (snd f))) ->
+  le_nf (fields_example rec1 fs) (fields_example rec2 fs).
+Proof.
+  intros H. unfold fields_example.
+  destruct (forallb (fun f => is_some (fst f)) fs); destruct (forallb (fun f => is_none (fst f)) fs).
+  - apply le_nf_refl.
+  - apply le_nf_bind; [|intros l; apply le_nf_refl]. apply le_nf_mmapM. intros f Hf. unfold named_field.
+    apply le_nf_bind; [apply H; exact Hf|]. intros v. apply le_nf_refl.
+  - apply le_nf_bind; [|intros l; apply le_nf_refl]. apply le_nf_mmapM. intros f Hf. apply H. exact Hf.
+  - apply le_nf_refl.
+Qed.
+
+Lemma le_nf_ty_example rec1 rec2 t :
+  (forall i, In i (def_ids (t_def t)) -> le_nf (rec1 i) (rec2 i)) ->
+  le_nf (ty_example rec1 t) (ty_example rec2 t).
+Proof.
+  intros H. unfold ty_example. destruct (t_def t) as [fs|vs|e|len e|ts|p|e|st o]; cbn [def_ids] in H.
+  - apply le_nf_bind; [|intros c; apply le_nf_refl]. apply le_nf_fields.
+    intros f Hf. unfold field_pairs in Hf. apply in_map_iff in Hf as (f0 & <- & Hf0). cbn [snd].
+    apply H. apply in_map. exact Hf0.
+  - intros s Hs. unfold mbind in *. destruct (mdraw (choose vs) s) as [[[var|] s1]|e|m] eqn:Ed;
+      [|reflexivity|reflexivity|reflexivity].
+    assert (Hvar : In var vs).
+    { unfold mdraw in Ed. destruct (choose vs (snd s)) as [o ws'|] eqn:Ec; [|discriminate].
+      inversion Ed; subst. apply choose_inv in Ec. exact Ec. }
+    revert Hs.
+    apply (le_nf_bind (fields_example rec1 (field_pairs (v_fields var)))
+                      (fields_example rec2 (field_pairs (v_fields var)))).
+    + apply le_nf_fields. intros f Hf. unfold field_pairs in Hf.
+      apply in_map_iff in Hf as (f0 & <- & Hf0). cbn [snd]. apply H.
+      apply in_flat_map. exists var. split; [exact Hvar|apply in_map; exact Hf0].
+    + intros c. apply le_nf_refl.
+  - apply le_nf_bind; [apply H; left; reflexivity|]. intros v1.
+    apply le_nf_bind; [apply H; left; reflexivity|]. intros v2. apply le_nf_refl.
+  - apply le_nf_bind; [apply le_nf_mrepeatN; apply H; left; reflexivity|]. intros vs. apply le_nf_refl.
+  - apply le_nf_bind; [|intros c; apply le_nf_refl]. apply le_nf_fields.
+    intros f Hf. apply in_map_iff in Hf as (i & <- & Hi). cbn [snd]. apply H. exact Hi.
+  - apply le_nf_refl.
+  - apply H. left; reflexivity.
+  - apply le_nf_refl.
+Qed.
+
+Theorem resolve_go_closed_prefix r1 r2 : closed r1 -> forall (f1 f : nat) id,
+  (f1 <= f)%nat -> in_reg r1 id -> le_nf (resolve_go f1 r1 id) (resolve_go f (r1 ++ r2) id).
+Proof.
+  intros Hcl. induction f1 as [|f1 IH]; intros f id Hle Hin s H; [exfalso; apply H; reflexivity|].
+  destruct f as [|f]; [lia|]. rewrite !resolve_go_S. rewrite resolve_go_S in H.
+  rewrite (lookup_closed_prefix r1 r2 id Hin).
+  destruct (lookup r1 id) as [t|] eqn:E; [|reflexivity].
+  assert (Hrun :
+    match ty_example (resolve_go f1 r1) t (cache_set id CRecursive (fst s), snd s) with
+    | XOk (v, s') => XOk (v, (cache_set id (CComputed v) (fst s'), snd s'))
+    | XErr e => XErr e
+    | XPanic m => XPanic m
+    end <> XErr XOutOfFuel ->
+    match ty_example (resolve_go f (r1 ++ r2)) t (cache_set id CRecursive (fst s), snd s) with
+    | XOk (v, s') => XOk (v, (cache_set id (CComputed v) (fst s'), snd s'))
+    | XErr e => XErr e
+    | XPanic m => XPanic m
+    end =
+    match ty_example (resolve_go f1 r1) t (cache_set id CRecursive (fst s), snd s) with
+    | XOk (v, s') => XOk (v, (cache_set id (CComputed v) (fst s'), snd s'))
+    | XErr e => XErr e
+    | XPanic m => XPanic m
+    end).
+  { intros H0.
+    assert (H1 : ty_example (resolve_go f1 r1) t (cache_set id CRecursive (fst s), snd s) <> XErr XOutOfFuel).
+    { intros E1. rewrite E1 in H0. apply H0. reflexivity. }
+    assert (Hle' : le_nf (ty_example (resolve_go f1 r1) t) (ty_example (resolve_go f (r1 ++ r2)) t)).
+    { apply le_nf_ty_example. intros i Hi. apply IH; [lia|].
+      eapply Hcl; [rewrite <- lookup_resolve; exact E|]. apply in_or_app. right; exact Hi. }
+    rewrite (Hle' _ H1). reflexivity. }
+  destruct (cache_get (fst s) id) as [[|cv]|]; [reflexivity|apply Hrun; exact H|apply Hrun; exact H].
+Qed.
+
+(** the outcome of [example_from_seed] with the ids inside the two id-carrying errors renamed *)
+Definition xmap (pi : N -> N) (x : xres value) : xres value :=
+  match x with
+  | XOk v => XOk v
+  | XErr e => XErr (map_xerr pi e)
+  | XPanic m => XPanic m
+  end.
+
+(** on a closed restricted registry the example run at a retained id has THE outcome of the run on
+    the full registry: the same value from the same word stream, or the same error *)
+Theorem example_restriction_same_outcome pi k r id ws :
+  renumbering (N.of_nat (List.length r)) pi -> closed (restrict pi k r) ->
+  in_reg (restrict pi k r) (pi id) ->
+  example_value (restrict pi k r) (pi id) ws = xmap pi (example_value r id ws).
+Proof.
+  intros Hpi Hcl Hin. unfold example_value, example_run.
+  set (rr := restrict pi k r).
+  assert (Hnf : resolve_go (example_fuel rr) rr (pi id) ([], ws) <> XErr XOutOfFuel).
+  { pose proof (resolve_go_total rr (example_fuel rr) (pi id) []) as H.
+    assert (Hf : (free rr [] < example_fuel rr)%nat) by (rewrite free_nil; unfold example_fuel; lia).
+    specialize (H Hf ([], ws)). cbn beta in H.
+    assert (Hi : Inv [] ([], ws)) by (intros j; reflexivity).
+    specialize (H Hi). intros E. rewrite E in H. apply H. reflexivity. }
+  assert (Hfuel : (example_fuel rr <= example_fuel r)%nat).
+  { unfold example_fuel, rr, restrict. rewrite firstn_length, renumber_length. lia. }
+  pose proof (resolve_go_closed_prefix rr (dropped pi k r) Hcl _ _ (pi id) Hfuel Hin ([], ws) Hnf) as E.
+  unfold rr, restrict, dropped in E. rewrite firstn_skipn in E. fold (restrict pi k r) in E. fold rr in E.
+  rewrite <- E.
+  pose proof (resolve_go_renumber pi r Hpi (example_fuel r) id ([], ws)) as R.
+  change (mapst pi ([], ws)) with (([], ws) : st) in R. rewrite R.
+  destruct (resolve_go (example_fuel r) r id ([], ws)) as [[v1 [c1 w1]]|e|m]; reflexivity.
+Qed.
